@@ -66,6 +66,18 @@ func (o *signalHandler) addSignalUser(userID uint64, signalID, messageID uint32,
 		contextID: 0,
 	}
 
+	// refuse a known user id before anything is registered: all
+	// registrations of an object come from its mailbox goroutine,
+	// so nobody can add this id between the check and the append.
+	o.signalsMutex.Lock()
+	for _, user := range o.signals {
+		if user.userID == userID {
+			o.signalsMutex.Unlock()
+			return fmt.Errorf("user %d already exists", userID)
+		}
+	}
+	o.signalsMutex.Unlock()
+
 	e := from.EndPoint()
 	f := func(hdr *net.Header) (bool, bool) {
 		return false, true
@@ -78,14 +90,6 @@ func (o *signalHandler) addSignalUser(userID uint64, signalID, messageID uint32,
 	newUser.contextID = e.MakeHandler(f, q, cl)
 
 	o.signalsMutex.Lock()
-
-	for _, user := range o.signals {
-		if user.userID == userID {
-			o.signalsMutex.Unlock()
-			user.context.EndPoint().RemoveHandler(user.contextID)
-			return fmt.Errorf("user %d already exists", userID)
-		}
-	}
 	o.signals = append(o.signals, newUser)
 	o.signalsMutex.Unlock()
 	return nil
